@@ -49,11 +49,18 @@ func init() {
 			nGen = 900
 		}
 		sanPerms, extPerms := 0, 0
-		for i := 0; i < nGen; i++ {
+		// directed first: groups of related names (case variants, exact duplicates, trailing dots, wildcard and base name,
+		// several addresses of both families with a reserved one in each position); then random draws from the pool
+		directed := relatedNameGroups
+		for i := 0; i < nGen+len(directed); i++ {
 			k := 2 + rng.Intn(3)
 			var names []genName
-			for j := 0; j < k; j++ {
-				names = append(names, pick(rng, namePool))
+			if i < len(directed) {
+				names = directed[i]
+			} else {
+				for j := 0; j < k; j++ {
+					names = append(names, pick(rng, namePool))
+				}
 			}
 			tmpl := leafTemplate()
 			tmpl.DNSNames = nil
